@@ -290,6 +290,29 @@ func (c *Ctx) genC03() {
 			})
 		}
 	}
+	// the SP's *other* identifier: with an entity ID configured, the metadata URL is not an audience (and vice versa);
+	// alone, first, last, and next to a near miss
+	for _, shape := range []int{0, 1, 2, 3} {
+		shape := shape
+		variants(func(cfg SPCfg, r *Resp) {
+			other := cfg.MetadataURL
+			if cfg.EntityID == "" {
+				other = spEntity
+			}
+			miss := nearMiss(firstSetStr(cfg.EntityID, cfg.MetadataURL))[1+c.rng.Intn(6)]
+			switch shape {
+			case 0:
+				r.Entries[0].Cond.Auds = []string{other}
+			case 1:
+				r.Entries[0].Cond.Auds = []string{other, miss}
+			case 2:
+				r.Entries[0].Cond.Auds = []string{miss, other}
+			default:
+				r.Entries[0].Cond.Auds = []string{idpEntity, other, cfg.Acs}
+			}
+			c.count("c03-audiences", fmt.Sprintf("other-identifier shape=%d", shape))
+		})
+	}
 	// nested status code must not matter; status is the top-level value
 	// pairwise perturbations, sampled
 	n := 300
